@@ -47,15 +47,15 @@ fn s_powi(x: f64, n: i32) -> f64 { record2(23, x, n as f64) }
 #[kani::proof]
 fn step_number() { let a: f64 = kani::any();
     match eval(Node::Number(a)) { Ok(v) => assert!(v.to_bits() == a.to_bits(), "leaf returns its payload unchanged, bit for bit"), Err(e) => { std::mem::forget(e); assert!(false, "never Err") } } }
-// @obligation owners=C05,C20 fn=eval_f64::ast::eval/Add
+// @obligation owners=C05,C20,C15 fn=eval_f64::ast::eval/Add
 #[kani::proof]
 fn step_add() { let a: f64 = kani::any(); let b: f64 = kani::any();
     match eval(Node::Add(num(a), num(b))) { Ok(v) => assert!(same(v, a + b), "IEEE addition"), Err(e) => { std::mem::forget(e); assert!(false, "never Err") } } }
-// @obligation owners=C05,C20 fn=eval_f64::ast::eval/Subtract
+// @obligation owners=C05,C20,C15 fn=eval_f64::ast::eval/Subtract
 #[kani::proof]
 fn step_subtract() { let a: f64 = kani::any(); let b: f64 = kani::any();
     match eval(Node::Subtract(num(a), num(b))) { Ok(v) => assert!(same(v, a - b), "IEEE subtraction, operands in order"), Err(e) => { std::mem::forget(e); assert!(false, "never Err") } } }
-// @obligation owners=C05,C20 fn=eval_f64::ast::eval/Multiply
+// @obligation owners=C05,C20,C15 fn=eval_f64::ast::eval/Multiply
 #[kani::proof]
 fn step_multiply() { let a: f64 = kani::any(); let b: f64 = kani::any();
     match eval(Node::Multiply(num(a), num(b))) { Ok(v) => assert!(same(v, a * b), "IEEE multiplication"), Err(e) => { std::mem::forget(e); assert!(false, "never Err") } } }
@@ -63,27 +63,27 @@ fn step_multiply() { let a: f64 = kani::any(); let b: f64 = kani::any();
 #[kani::proof]
 fn step_divide() { let a: f64 = kani::any(); let b: f64 = kani::any();
     match eval(Node::Divide(num(a), num(b))) { Ok(v) => assert!(same(v, a / b), "IEEE division, non-finite results are values"), Err(e) => { std::mem::forget(e); assert!(false, "never Err") } } }
-// @obligation owners=C05,C19 fn=eval_f64::ast::eval/Negative
+// @obligation owners=C05,C19,C15 fn=eval_f64::ast::eval/Negative
 #[kani::proof]
 fn step_negative() { let a: f64 = kani::any();
     match eval(Node::Negative(num(a))) { Ok(v) => assert!(v.to_bits() == (a.to_bits() ^ (1u64 << 63)), "unary minus flips the sign bit"), Err(e) => { std::mem::forget(e); assert!(false, "never Err") } } }
-// @obligation owners=C05,C10 fn=eval_f64::ast::eval/Abs
+// @obligation owners=C05,C10,C15 fn=eval_f64::ast::eval/Abs
 #[kani::proof]
 fn step_abs() { let a: f64 = kani::any();
     match eval(Node::Abs(num(a))) { Ok(v) => assert!(v.to_bits() == (a.to_bits() & !(1u64 << 63)), "abs clears the sign bit"), Err(e) => { std::mem::forget(e); assert!(false, "never Err") } } }
-// @obligation owners=C05,C10 fn=eval_f64::ast::eval/Floor
+// @obligation owners=C05,C10,C15 fn=eval_f64::ast::eval/Floor
 #[kani::proof]
 fn step_floor() { let a: f64 = kani::any();
     match eval(Node::Floor(num(a))) { Ok(v) => assert!(same(v, a.floor())), Err(e) => { std::mem::forget(e); assert!(false, "never Err") } } }
-// @obligation owners=C05,C10 fn=eval_f64::ast::eval/Ceil
+// @obligation owners=C05,C10,C15 fn=eval_f64::ast::eval/Ceil
 #[kani::proof]
 fn step_ceil() { let a: f64 = kani::any();
     match eval(Node::Ceil(num(a))) { Ok(v) => assert!(same(v, a.ceil())), Err(e) => { std::mem::forget(e); assert!(false, "never Err") } } }
-// @obligation owners=C05,C10 fn=eval_f64::ast::eval/Truncate
+// @obligation owners=C05,C10,C15 fn=eval_f64::ast::eval/Truncate
 #[kani::proof]
 fn step_truncate() { let a: f64 = kani::any();
     match eval(Node::Truncate(num(a))) { Ok(v) => assert!(same(v, a.trunc())), Err(e) => { std::mem::forget(e); assert!(false, "never Err") } } }
-// @obligation owners=C05,C10 fn=eval_f64::ast::eval/Round
+// @obligation owners=C05,C10,C15 fn=eval_f64::ast::eval/Round
 #[kani::proof]
 fn step_round() { let a: f64 = kani::any();
     match eval(Node::Round(num(a))) { Ok(v) => {
